@@ -13,6 +13,8 @@ from ..cfg import CFG
 from ..core import AnalysisError, Repo, Report, call_name, calls_in, kwarg, norm, parents_map, walk_local
 from ..dataflow import DefUse
 from ..sites import guard_chain
+from .util import canon, cguards
+import re
 
 
 def run(repo: Repo, rep: Report, tier: str) -> None:
@@ -21,11 +23,13 @@ def run(repo: Repo, rep: Report, tier: str) -> None:
     rep.rule("C12-R1", "_compute_network_ids keys ids by (source entity, colour of the edge); a new key takes the counter and the counter advances in the same branch (ids pairwise distinct); "
              "direct and spanning-tree routing pass the id of the edge's own source group to route_signal")
     cni = cp.methods["_compute_network_ids"]
-    keys = [n for n in walk_local(cni.node) if isinstance(n, ast.Assign) and isinstance(n.value, ast.Tuple) and len(n.value.elts) == 2 and "source_entity_id" in norm(n.value.elts[0]) and "color" in norm(n.value.elts[1])]
+    ccni = canon(cni)
+    keys = [n for n in walk_local(cni.node) if isinstance(n, ast.Assign) and isinstance(n.value, ast.Tuple) and len(n.value.elts) == 2 and ccni.text(n.value.elts[0]).endswith(".source_entity_id")
+            and not ccni.text(n.value.elts[1]).endswith("_entity_id")]
     rep.check(bool(keys), "C12-R1", "network key is (source entity, colour)", norm(keys[0].value) if keys else "key tuple not found", cni.loc(keys[0]) if keys else cni.loc())
-    du = DefUse(cni)
-    col_src = [norm(v) for v in du.value_exprs("color")]
-    rep.check(any("_edge_color_map" in s for s in col_src), "C12-R1", "the colour in the key is the edge's assigned colour", str(col_src), cni.loc())
+    col_src = ccni.text(keys[0].value.elts[1]) if keys else ""
+    E_ = ccni.text(keys[0].value.elts[0])[: -len(".source_entity_id")] if keys else ""
+    rep.check(col_src == f"self._edge_color_map.get(({E_}.source_entity_id, {E_}.sink_entity_id, {E_}.resolved_signal_name), 'red')", "C12-R1", "the colour in the key is the edge's assigned colour", col_src, cni.loc())
     cfg = CFG(cni.node)
     news = [s for s in cfg.stmts() if isinstance(s, ast.If) and isinstance(s.test, ast.Compare) and isinstance(s.test.ops[0], ast.NotIn)]
     ok = False
@@ -40,16 +44,16 @@ def run(repo: Repo, rep: Report, tier: str) -> None:
         sd = [c for c in calls_in(cni.node, "setdefault")]
         detail = "; ".join(norm(c) for c in sd) or detail
     rep.check(ok, "C12-R1", "each new (source, colour) key gets a fresh id (counter advances when a key is added)", detail + ("" if ok else ": without the increment every network shares one id and relays are reused across networks"), cni.loc(news[0]) if news else cni.loc())
-    st = [n for n in walk_local(cni.node) if isinstance(n, ast.Assign) and norm(n.targets[0]) == "self._edge_network_ids[edge_key]"]
-    rep.check(bool(st) and norm(st[0].value) == "network_id", "C12-R1", "every edge records the id of its source group", norm(st[0]) if st else "", cni.loc())
+    st = [n for n in walk_local(cni.node) if isinstance(n, ast.Assign) and isinstance(n.targets[0], ast.Subscript) and norm(n.targets[0].value) == "self._edge_network_ids"]
+    ok = bool(st) and ccni.text(st[0].targets[0].slice) == f"({E_}.source_entity_id, {E_}.sink_entity_id, {E_}.resolved_signal_name)" \
+        and ccni.text(st[0].value) == "{}[" + (ccni.text(keys[0].value)[1:-1] if keys else "?") + "]"
+    rep.check(ok, "C12-R1", "every edge records the id of its source group", ccni.text(st[0].value)[:120] if st else "", cni.loc())
     rcr = cp.methods["_route_connection_with_relays"]
     c = calls_in(rcr.node, "route_signal")
-    dur = DefUse(rcr)
-    ok = bool(c) and len(c[0].args) >= 5 and norm(c[0].args[4]) == "network_id" and any("get_network_id_for_edge(edge.source_entity_id, edge.sink_entity_id, edge.resolved_signal_name)" in norm(v) for v in dur.value_exprs("network_id"))
-    rep.check(ok, "C12-R1", "direct routing passes the edge's own network id", norm(c[0])[:100] if c else "", rcr.loc())
+    ok = bool(c) and len(c[0].args) >= 5 and canon(rcr).text(c[0].args[4]) == "self.get_network_id_for_edge(edge.source_entity_id, edge.sink_entity_id, edge.resolved_signal_name)"
+    rep.check(ok, "C12-R1", "direct routing passes the edge's own network id", canon(rcr).text(c[0].args[4])[:100] if c and len(c[0].args) >= 5 else "", rcr.loc())
     mst = cp.methods["_apply_mst_to_source_fanout"]
-    dum = DefUse(mst)
-    ok = any("get_network_id_for_edge(source_id, sink_ids[0], signal_name)" in norm(v) for v in dum.value_exprs("network_id")) and any(call_name(x) == "_route_mst_edge" and norm(x.args[-1]) == "network_id" for x in calls_in(mst.node))
+    ok = any(call_name(x) == "_route_mst_edge" and canon(mst).text(x.args[-1]) == "self.get_network_id_for_edge(source_id, sink_ids[0], signal_name)" for x in calls_in(mst.node))
     rep.check(ok, "C12-R1", "spanning-tree routing passes the source group's network id", "get_network_id_for_edge(source_id, ...) -> _route_mst_edge(..., network_id)", mst.loc())
     rme = cp.methods["_route_mst_edge"]
     c2 = calls_in(rme.node, "route_signal")
@@ -60,9 +64,10 @@ def run(repo: Repo, rep: Report, tier: str) -> None:
     rn = repo.cls("RelayNode")
     crn = rn.methods["can_route_network"]
     ret = [n for n in walk_local(crn.node) if isinstance(n, ast.Return)]
-    sel = [n for n in walk_local(crn.node) if isinstance(n, ast.Assign) and norm(n.targets[0]) == "networks"]
-    ok = bool(ret) and norm(ret[0].value) in ("len(networks) == 0 or network_id in networks", "not networks or network_id in networks") and bool(sel) and norm(sel[0].value) == "self.networks_red if wire_color == 'red' else self.networks_green"
-    rep.check(ok, "C12-R2", "a relay accepts a network only if that colour is free or already carries it", (norm(ret[0].value) if ret else "") + " | " + (norm(sel[0].value) if sel else ""), crn.loc())
+    N_ = "self.networks_red if wire_color == 'red' else self.networks_green"
+    got = canon(crn).text(ret[0].value) if ret else ""
+    ok = got in (f"len({N_}) == 0 or network_id in ({N_})", f"not ({N_}) or network_id in ({N_})")
+    rep.check(ok, "C12-R2", "a relay accepts a network only if that colour is free or already carries it", got, crn.loc())
     an = rn.methods["add_network"]
     ok = any(isinstance(n, ast.If) and norm(n.test) == "wire_color == 'red'" and "networks_red.add(network_id)" in norm(n.body[0]) and "networks_green.add(network_id)" in norm(n.orelse[0]) for n in walk_local(an.node))
     rep.check(ok, "C12-R2", "add_network records the id on the colour used", "red -> networks_red, else networks_green" if ok else "colour/record mismatch", an.loc())
@@ -82,12 +87,13 @@ def run(repo: Repo, rep: Report, tier: str) -> None:
                     rep.check(ok, "C12-R2", f"{m.short}: an existing relay is offered only after can_route_network", "; ".join(gs)[:150] or "unguarded", m.loc(u))
     rep.floor("C12-R2", "relay reuse sites", n_sites, 2)
     rs = net.methods["route_signal"]
-    ok = any(isinstance(n, ast.For) and "existing_path" in norm(n.iter) and any(call_name(x) == "add_network" for x in calls_in(n)) for n in walk_local(rs.node))
+    ok = any(isinstance(n, ast.For) and "self._find_path_through_existing_relays(" in canon(rs).text(n.iter) and any(call_name(x) == "add_network" for x in calls_in(n)) for n in walk_local(rs.node))
     rep.check(ok, "C12-R2", "a path through existing relays records the network on every relay used", "for relay in existing_path: add_network" if ok else "missing", rs.loc())
     pcr = net.methods["_plan_and_create_relay_path"]
     cfgp = CFG(pcr.node)
-    apps = [s for s in cfgp.stmts() if isinstance(s, ast.Expr) and norm(s.value).startswith("path.append(")]
-    adds = [s for s in cfgp.stmts() if isinstance(s, ast.Expr) and norm(s.value) == "relay_node.add_network(network_id, wire_color)"]
+    returned = {n.value.id for n in walk_local(pcr.node) if isinstance(n, ast.Return) and isinstance(n.value, ast.Name)}
+    apps = [s for s in cfgp.stmts() if isinstance(s, ast.Expr) and isinstance(s.value, ast.Call) and call_name(s.value) == "append" and isinstance(s.value.func, ast.Attribute) and isinstance(s.value.func.value, ast.Name) and s.value.func.value.id in returned]
+    adds = [s for s in cfgp.stmts() if isinstance(s, ast.Expr) and isinstance(s.value, ast.Call) and call_name(s.value) == "add_network" and [norm(a) for a in s.value.args] == ["network_id", "wire_color"]]
     rep.check(bool(apps) and bool(adds) and cfgp.dominates(adds[0], apps[0]), "C12-R2", "a planned hop records the network before it is used", "add_network dominates path.append", pcr.loc())
     fin = net.methods["_finalize_relay_creation"]
     ok = not any(call_name(c) == "add_network" for c in calls_in(fin.node)) and any(call_name(c) == "add_relay_node" for c in calls_in(fin.node))
@@ -97,25 +103,56 @@ def run(repo: Repo, rep: Report, tier: str) -> None:
     rep.rule("C12-R3", "plan_wire_colors groups edges by (sink, resolved signal); within a group every pair of distinct sources gets a conflict edge unless both come from one merge; "
              "a node's neighbours are pushed with the opposite colour")
     pw = repo.func("plan_wire_colors")
-    gk = [n for n in walk_local(pw.node) if isinstance(n, ast.Subscript) and norm(n.value) == "sink_groups" and isinstance(n.slice, ast.Tuple)]
-    ok = bool(gk) and [norm(e) for e in gk[0].slice.elts] == ["edge.sink_entity_id", "edge.resolved_signal_name"]
-    rep.check(ok, "C12-R3", "edges are grouped by (sink, resolved signal)", norm(gk[0].slice) if gk else "", pw.loc())
-    pm = parents_map(pw.node)
-    conf = [n for n in walk_local(pw.node) if isinstance(n, ast.Expr) and norm(n.value) == "graph[a].add(b)"]
-    if not conf:
-        rep.bad("C12-R3", "conflict edges are added between distinct sources", "graph[a].add(b) not found", pw.loc())
+    cpw = canon(pw)
+    du3 = DefUse(pw)
+
+    def _local_of(name: str, ctor: str, arg: str) -> bool:
+        return any(isinstance(v, ast.Call) and call_name(v) == ctor and v.args and norm(v.args[0]) == arg for v in du3.value_exprs(name))
+
+    gk = [c for c in calls_in(pw.node, "append") if isinstance(c.func, ast.Attribute) and isinstance(c.func.value, ast.Subscript) and isinstance(c.func.value.value, ast.Name)
+          and _local_of(c.func.value.value.id, "defaultdict", "list") and isinstance(c.func.value.slice, ast.Tuple)]
+    keytxt = [cpw.text(e) for e in gk[0].func.value.slice.elts] if gk else []
+    ok = len(keytxt) == 2 and keytxt[0].endswith(".sink_entity_id") and keytxt[1] == keytxt[0][: -len(".sink_entity_id")] + ".resolved_signal_name"
+    rep.check(ok, "C12-R3", "edges are grouped by (sink, resolved signal)", str(keytxt), pw.loc())
+    adds = [n for n in walk_local(pw.node) if isinstance(n, ast.Expr) and isinstance(n.value, ast.Call) and call_name(n.value) == "add" and isinstance(n.value.func, ast.Attribute)
+            and isinstance(n.value.func.value, ast.Subscript) and isinstance(n.value.func.value.value, ast.Name) and _local_of(n.value.func.value.value.id, "defaultdict", "set")
+            and len(n.value.args) == 1 and isinstance(n.value.args[0], ast.Name) and isinstance(n.value.func.value.slice, ast.Name)]
+    conf = None
+    sym = False
+    for x in adds:
+        for y in adds:
+            if x is not y and x.value.func.value.value.id == y.value.func.value.value.id and x.value.func.value.slice.id == y.value.args[0].id and y.value.func.value.slice.id == x.value.args[0].id:
+                conf = conf or x
+                sym = True
+    if conf is None:
+        rep.bad("C12-R3", "conflict edges are added between distinct sources", "graph[a].add(b) / graph[b].add(a) pair not found", pw.loc())
     else:
-        gs = [(norm(t), pol) for t, pol in guard_chain(pw, conf[0], pm)]
-        skips = [g for g, pol in gs if not pol]
-        ok = set(skips) <= {"a == b", "merge_a is not None and merge_a == merge_b", "len(unique_entries) <= 1"} and "merge_a is not None and merge_a == merge_b" in skips
-        rep.check(ok, "C12-R3", "only same-merge pairs are exempt from a conflict edge", "skips: " + "; ".join(skips), pw.loc(conf[0]))
-        sym = any(isinstance(n, ast.Expr) and norm(n.value) == "graph[b].add(a)" for n in walk_local(pw.node))
+        ta, tb = cpw.text(conf.value.func.value.slice), cpw.text(conf.value.args[0])
+        kinds = []
+        for g, pol in cguards(pw, conf):
+            if pol:
+                kinds.append(f"extra condition `{g[:60]}`")
+            elif g in (f"{ta} == {tb}", f"{tb} == {ta}"):
+                kinds.append("a == b")
+            elif ta.endswith("[0]") and tb.endswith("[0]") and g == f"{ta[:-3]}[1] is not None and {ta[:-3]}[1] == {tb[:-3]}[1]":
+                kinds.append("same merge")
+            elif re.fullmatch(r"len\(.+\) <= 1", g):
+                kinds.append("single source")
+            else:
+                kinds.append(f"extra exemption `{g[:60]}`")
+        ok = set(kinds) <= {"a == b", "same merge", "single source"} and "same merge" in kinds
+        rep.check(ok, "C12-R3", "only same-merge pairs are exempt from a conflict edge", "skips: " + "; ".join(kinds), pw.loc(conf))
         rep.check(sym, "C12-R3", "conflict edges are symmetric", "graph[b].add(a)" if sym else "missing", pw.loc())
-    opp = [n for n in walk_local(pw.node) if isinstance(n, ast.Assign) and norm(n.targets[0]) == "opposite_color"]
-    ok = bool(opp) and norm(opp[0].value) == "WIRE_COLORS[1] if desired_color == WIRE_COLORS[0] else WIRE_COLORS[0]"
-    nd = [n for n in walk_local(pw.node) if isinstance(n, ast.Assign) and norm(n.targets[0]) == "neighbor_desired"]
-    ok = ok and bool(nd) and norm(nd[0].value) == "neighbor_locked or opposite_color"
-    rep.check(ok, "C12-R3", "neighbours in the conflict graph get the opposite colour (unless locked)", norm(opp[0].value) if opp else "", pw.loc())
+    pushes = [c for c in calls_in(pw.node, "append") if c.args and isinstance(c.args[0], ast.Tuple) and len(c.args[0].elts) == 2
+              and re.fullmatch(r"\(locked_colors or \{\}\)\.get\((.+)\) or \(WIRE_COLORS\[1\] if (.+) == WIRE_COLORS\[0\] else WIRE_COLORS\[0\]\)", cpw.text(c.args[0].elts[1]))]
+    ok = False
+    shown = ""
+    for c in pushes:
+        m_ = re.fullmatch(r"\(locked_colors or \{\}\)\.get\((.+)\) or \(WIRE_COLORS\[1\] if (.+) == WIRE_COLORS\[0\] else WIRE_COLORS\[0\]\)", cpw.text(c.args[0].elts[1]))
+        if m_.group(1) == cpw.text(c.args[0].elts[0]):
+            ok = True
+            shown = "push (neighbour, locked(neighbour) or opposite(colour of node))"
+    rep.check(ok, "C12-R3", "neighbours in the conflict graph get the opposite colour (unless locked)", shown, pw.loc())
     from ..core import module_const
     wc = module_const(repo, pw.module, "WIRE_COLORS")
     rep.check(tuple(wc) == ("red", "green"), "C12-R3", "exactly two wire colours", str(wc), pw.module.rel + ":1")
